@@ -236,6 +236,8 @@ def replay_case(case, idx, seed, tier, want_trace=True, want_covers=False, famil
                                                               "chg": [chg[o] for o in order], "uniform": False})
                         except Exception as e:
                             onerow = "one-row-table" if (len(case["terms"]) == 1 and (offset == 0.0 or all(x == 0 for x in case["terms"][0]["w"]))) else "general"
+                            if isinstance(e, AssertionError) and "Not equal to tolerance" in str(e):
+                                onerow = "consistency-check-tolerance"      # the internal debug check of swap_site, not the exchange itself
                             res["viol"].append((f"C01:swap-raises:{onerow}:{algo}",
                                                 f"try_swap_site sequence {seq} raised {type(e).__name__}: {e}",
                                                 dict(detail, swaps=list(seq))))
